@@ -299,6 +299,8 @@ def generate(rng, tier):
     scs.append({"probe": "d21"})
     scs.append({"probe": "mixin_parent"})
     scs.append({"probe": "threads_overlap"})
+    for k in range(4):
+        scs.append({"probe": "copy_attach", "seed": rng.randrange(10 ** 6), "first": "copy", "side": "copy", "shared_list": True})
     for k in range(12):
         scs.append({"probe": "copy_attach", "seed": rng.randrange(10 ** 6), "first": ["copy", "deepcopy"][k % 2],
                     "side": ["copy", "original"][(k // 2) % 2]})
